@@ -1,6 +1,6 @@
 (* C17 - The word-list generator (update-wordlist) writes tables that contain exactly the
    non-empty lines of the file it fetched, in order, under the requested variable name. *)
-From B39 Require Import Lib.Base Lib.Utf8 Lib.TableWF Model.GenTypes Gen.Tool Model.ToolModel Proofs.Tool.
+From B39 Require Import Lib.Base Lib.Utf8 Lib.TableWF Model.GenTypes Model.Model Gen.Tool Model.ToolModel Spec.Bip39Spec Facts.CanonDigest Proofs.Tables Proofs.Tool Proofs.ToolCanon.
 
 (* any input: any number of lines, blank lines anywhere, with or without a final newline;
    go_list_literal also requires the file to be valid UTF-8 without a byte order mark *)
@@ -21,5 +21,14 @@ Theorem C17_langs :
   tool_shape_ok = true.
 Proof. exact tool_langs_ok. Qed.
 
+(* run on the ten canonical upstream files (the pinned tables written one word per line, whose SHA-256 digests are
+   those of the upstream files: C08_upstream_digest) the generator reproduces, under the language's identifier,
+   exactly the list the package uses for that language (list_of l, the committed table) *)
+Theorem C17_canonical : forall (name : string) (l : Z), supported name l ->
+  exists out, render (bytes_of_string name) (file_of (canon name)) = Some out /\
+              go_list_literal out = Some (bytes_of_string name, list_of l).
+Proof. exact tool_reproduces_lists. Qed.
+
 Print Assumptions C17_faithful.
+Print Assumptions C17_canonical.
 Print Assumptions C17_langs.
